@@ -267,7 +267,7 @@ fn oracle(c: &PairCase, rec: &Rec, ctx: &Ctx) -> Result<(), String> {
 
 pub fn parts() -> Vec<PartDef> {
     vec![
-        part("polygons", 700_000, 60_000_000, |_| strat_for(line_shape_spec()), oracle),
-        part("discs", 300_000, 20_000_000, |_| strat_for(mol_shape_spec()), oracle),
+        part("polygons", 6_000_000, 120_000_000, |_| strat_for(line_shape_spec()), oracle),
+        part("discs", 2_000_000, 40_000_000, |_| strat_for(mol_shape_spec()), oracle),
     ]
 }
